@@ -357,3 +357,97 @@ func loopSharedAddressFindings(c *Ctx, f *ssa.Function) []widthFinding {
 	}
 	return out
 }
+
+// ---- membership test of the subscriber's rating groups (C01.R10 / C06.R9)
+//
+// FindRatingGroup decides whether a rating group is new to the subscriber: a new one starts in
+// reserve mode, a known one keeps its mode.  It has to compare the *elements* of
+// ChfUe.RatingGroups - all of them - with the group asked for.
+func checkFindRatingGroup(c *Ctx, r *Report, rule string) {
+	f := c.fn("internal/context", "ChfUe.FindRatingGroup")
+	key := fnKey(f) + "|membership"
+	if len(f.Params) < 2 {
+		r.viol(rule, key, c.rel(f.Pos()), "FindRatingGroup has no rating-group parameter (anchor moved)")
+		return
+	}
+	want := ssa.Value(f.Params[1])
+	isList := func(v ssa.Value) bool {
+		ld, ok := stripConv(v).(*ssa.UnOp)
+		if !ok || ld.Op != token.MUL {
+			return false
+		}
+		_, ok = isFieldAddr(ld.X, ctxPath, "ChfUe", "RatingGroups")
+		return ok
+	}
+	// slices.Contains(ue.RatingGroups, rg)
+	viaContains := false
+	eachInstr(f, func(_ *ssa.BasicBlock, _ int, ins ssa.Instruction) {
+		if call, ok := ins.(*ssa.Call); ok {
+			if obj := calleeObj(&call.Call); obj != nil && obj.Pkg() != nil && strings.HasSuffix(obj.Pkg().Path(), "slices") && strings.HasPrefix(obj.Name(), "Contains") && len(call.Call.Args) == 2 && isList(call.Call.Args[0]) && stripConv(call.Call.Args[1]) == want {
+				viaContains = true
+			}
+		}
+	})
+	if viaContains {
+		r.proven(rule, key, c.rel(f.Pos()), "slices.Contains(ue.RatingGroups, ratingGroup)")
+		return
+	}
+	bad := ""
+	// the comparison with the group asked for
+	cmpElem, cmpOther := false, ""
+	eachInstr(f, func(_ *ssa.BasicBlock, _ int, ins ssa.Instruction) {
+		bo, ok := ins.(*ssa.BinOp)
+		if !ok || (bo.Op != token.EQL && bo.Op != token.NEQ) {
+			return
+		}
+		var other ssa.Value
+		switch {
+		case stripConv(bo.X) == want:
+			other = bo.Y
+		case stripConv(bo.Y) == want:
+			other = bo.X
+		default:
+			return
+		}
+		o := stripConv(other)
+		if ld, ok := o.(*ssa.UnOp); ok && ld.Op == token.MUL {
+			if ia, ok := ld.X.(*ssa.IndexAddr); ok && isList(ia.X) {
+				cmpElem = true
+				return
+			}
+		}
+		cmpOther = describe(other)
+	})
+	if !cmpElem {
+		bad = "the rating group asked for is compared with " + cmpOther + ", not with the elements of ChfUe.RatingGroups (the loop variable of `for x := range list` is the index): a group is taken for known - and keeps whatever mode the zero value gives it, never charged - or for new, depending on its number, not on the list"
+		if cmpOther == "" {
+			bad = "FindRatingGroup does not compare the rating group asked for with the elements of ChfUe.RatingGroups"
+		}
+	}
+	// every element is visited: the loop runs while index < len(list)
+	if bad == "" {
+		full := false
+		for _, b := range f.Blocks {
+			if len(b.Instrs) == 0 || len(b.Succs) != 2 || !inCycle(b) {
+				continue
+			}
+			iff, ok := b.Instrs[len(b.Instrs)-1].(*ssa.If)
+			if !ok {
+				continue
+			}
+			bo, ok := iff.Cond.(*ssa.BinOp)
+			if !ok || bo.Op != token.LSS {
+				continue
+			}
+			if call, ok := stripConv(bo.Y).(*ssa.Call); ok {
+				if bi, ok := call.Call.Value.(*ssa.Builtin); ok && bi.Name() == "len" && isList(call.Call.Args[0]) {
+					full = true
+				}
+			}
+		}
+		if !full {
+			bad = "the loop over ChfUe.RatingGroups does not run while index < len(list) (a bound of len-1 never looks at the last group: the group added last is taken for new on its next request and put back into reserve mode)"
+		}
+	}
+	r.check(bad == "", rule, key, c.rel(f.Pos()), "every element of ChfUe.RatingGroups is compared with the group asked for", bad)
+}
